@@ -180,7 +180,11 @@ RandMember(ctx) ==
   IF r <= 18 THEN
        LET tm == IF Pct(0) <= 20 THEN RandTmpl(ctx, TRUE) ELSE <<>>
            \* (C++ has no constructor taking its own class by value: such a parameter becomes a const reference)
-           fix(as) == [i \in 1..Len(as) |-> IF as[i].t.qn = <<"This">> /\ as[i].t.q = ""
+           \* (and a constructor whose ONLY parameter is a reference to its own class is the copy constructor, which the
+           \*  rendered library must not replace: such a parameter becomes an int)
+           fix(as) == [i \in 1..Len(as) |-> IF as[i].t.qn = <<"This">> /\ Len(as) = 1 /\ as[i].t.q \in {"", "&"}
+                                            THEN [as[i] EXCEPT !.t = Ty(<<"int">>, <<>>, FALSE, "", TRUE)]
+                                            ELSE IF as[i].t.qn = <<"This">> /\ as[i].t.q = ""
                                             THEN [as[i] EXCEPT !.t = [as[i].t EXCEPT !.q = "&", !.const = TRUE]] ELSE as[i]]
        IN IF Exec THEN Ctor(ctx.cls, <<>>, fix(RandArgsN(ctx, IF ctx.nmembers > 4 THEN 4 ELSE ctx.nmembers)))
           ELSE Ctor(ctx.cls, tm, RandArgs(WithParams(ctx, tm), 3))
